@@ -12,3 +12,86 @@ def run(ck):
     extra = getattr(tables, 'D_EXTRA', {}).get('C07')
     if extra:
         extra(ck, w)
+    s1_sponge_twins(ck, w)
+
+
+CHIP = '<midnight_circuits::hash::poseidon::poseidon_chip::PoseidonChip as midnight_circuits::instructions::sponge::SpongeInstructions<midnight_proofs::circuit::AssignedCell, midnight_proofs::circuit::AssignedCell>>::'
+CPU = 'midnight_circuits::hash::poseidon::poseidon_cpu::<impl midnight_circuits::instructions::sponge::SpongeCPU for midnight_circuits::hash::poseidon::poseidon_chip::PoseidonChip>::'
+
+
+def skeleton(f):
+    """control skeleton of a sponge operation: nesting of if / match / for / return / panic with the state fields written at each place"""
+    from ..core import peel, pat_bindings, children
+    st = [b['i'] for p in f.get('params', []) for b in pat_bindings(p) if b['n'] == 'state']
+    if not st:
+        return None
+    sid = st[0]
+
+    def field_of(e):
+        e = peel(e)
+        path = []
+        while e.get('k') in ('field', 'index', 'mcall', 'try'):
+            if e.get('k') == 'field':
+                path.append(e['n'])
+            e = peel(e['recv'] if e.get('k') == 'mcall' else e['e'])
+        if e.get('k') == 'local' and e.get('i') == sid and path:
+            return path[-1]
+        return None
+
+    def rec(n):
+        k = n.get('k')
+        x = n.get('x') or []
+        if any('debug_assert' in m for m in x):
+            return []
+        out = []
+        if k == 'if':
+            out.append(('if', rec(n['a']), rec(n['b']) if 'b' in n else []))
+            return rec(n['c']) + out
+        if k == 'match' and n.get('src') == 'match':
+            return rec(n['e']) + [('match', [rec(a['body']) for a in n['arms']])]
+        if k == 'for':
+            return rec(n['iter']) + [('for', rec(n['body']))]
+        if k == 'loop':
+            return [('loop', rec(n['body']))]
+        if k == 'closure':
+            return rec(n['body'])
+        if k == 'ret':
+            return (rec(n['e']) if 'e' in n else []) + ['ret']
+        if k in ('assign', 'assignop'):
+            fl = field_of(n['lhs'])
+            return rec(n['rhs']) + ([f'W:{fl}'] if fl else [])
+        if k in ('call', 'mcall'):
+            inner = []
+            for c in children(n):
+                inner += rec(c)
+            if n.get('t') == '!':
+                return inner + ['panic']
+            if k == 'mcall' and n.get('m') in ('extend', 'push', 'clear', 'truncate', 'insert', 'pop', 'drain', 'extend_from_slice'):
+                fl = field_of(n['recv'])
+                if fl:
+                    inner.append(f'W:{fl}')
+            for a in n.get('args', []):
+                if a.get('k') == 'ref' and a.get('mut'):
+                    fl = field_of(a)
+                    if fl:
+                        inner.append(f'W:{fl}')
+            return inner
+        for c in children(n):
+            out += rec(c)
+        return out
+    return rec(f['body'])
+
+
+def s1_sponge_twins(ck, w):
+    ck.rule('C07.S1', 'sponge twins: the in-circuit Poseidon sponge (SpongeInstructions for PoseidonChip) and the off-circuit one (SpongeCPU, which also backs the '
+                      'transcript hash) have the same control skeleton operation by operation: the same nesting of branches, loops, early returns and panics, '
+                      'writing the same state fields (queue, register, squeeze_position) at the same places.  A branch or early return present on one side '
+                      'only makes the two sponges diverge for the call sequences that take it.')
+    for op in ('absorb', 'squeeze'):
+        a, b = w.fn_x(CHIP + op, required=False), w.fn_x(CPU + op, required=False)
+        if a is None or b is None:
+            ck.bad('C07.S1', f'{op}:anchor', f'sponge twin {op} not found (in-circuit: {a is not None}, off-circuit: {b is not None})')
+            continue
+        sa, sb = skeleton(a), skeleton(b)
+        ck.record('C07.S1', f'{op}:skeleton', sa is not None and sa == sb, f'identical skeletons ({len(str(sa))} chars)',
+                  f'Poseidon sponge `{op}`: in-circuit skeleton {sa} differs from the off-circuit skeleton {sb}', None)
